@@ -50,19 +50,21 @@ def profile(prop):
                       'filter_pair': 0.3}, tight=0.6, treacherous=0.7,
                  hist=(1, 3), big=0.2, siblings=0.3, retune=0.1)
     elif prop == 'C05':
-        p.update(ops={'apply_matcher': 1.0}, hist=(1, 2), p_missing=0.12)
+        p.update(ops={'apply_matcher': 1.0}, hist=(1, 2), p_missing=0.12,
+                 siblings=0.2)
     elif prop == 'C06':
         p.update(ops={'filter_candset': 0.6, 'overlap_tables': 0.25,
-                      'overlap_pair': 0.15}, hist=(1, 3))
+                      'overlap_pair': 0.15}, hist=(1, 3), siblings=0.25)
     elif prop == 'C07':
-        p.update(ops={'pipeline': 1.0}, hist=(1, 1), tight=0.4, p_missing=0.05)
+        p.update(ops={'pipeline': 1.0}, hist=(1, 1), tight=0.4, p_missing=0.05,
+                 siblings=0.25)
     elif prop == 'C08':
         p.update(ops={'join': 0.55, 'filter_tables': 0.2,
                       'filter_candset': 0.08, 'apply_matcher': 0.1,
                       'filter_pair': 0.07},
                  p_missing=0.3, missing_shapes=True, allow_missing=0.7,
                  measures=SET_JOINS + ['EDIT_DISTANCE'], tight=0.1,
-                 twin_nomissing=0.4, outs=0.6)
+                 variants={'drop_missing': 0.5}, outs=0.6)
     elif prop == 'C09':
         p.update(ops={'join': 0.45, 'filter_tables': 0.3, 'filter_pair': 0.12,
                       'filter_candset': 0.13}, qgram_pref=0.5,
@@ -83,8 +85,8 @@ def profile(prop):
                  measures=SET_JOINS + ['EDIT_DISTANCE'], p_missing=0.15,
                  allow_missing=0.5, tight=0.1)
     elif prop == 'C12':
-        p.update(ops={'join': 0.4, 'filter_tables': 0.15,
-                      'filter_candset': 0.1, 'filter_pair': 0.1,
+        p.update(ops={'join': 0.38, 'filter_tables': 0.14,
+                      'filter_candset': 0.15, 'filter_pair': 0.08,
                       'apply_matcher': 0.12, 'profile': 0.05, 'convert': 0.03,
                       'pipeline': 0.05},
                  measures=SET_JOINS + ['EDIT_DISTANCE', 'EDIT_DISTANCE'],
@@ -99,7 +101,7 @@ def profile(prop):
                       'profile': 0.1, 'pipeline': 0.05},
                  measures=SET_JOINS + ['EDIT_DISTANCE'], hist=(1, 4),
                  shapes=0.6, str_dtype=0.5, reject=0.0, rows=(0, 6),
-                 tight=0.05)
+                 tight=0.05, retune=0.1)
     return p
 
 
@@ -611,6 +613,10 @@ def gen_plan(g):
     plan = {'mode': mode,
             'order_seed': None if rng.random() < 0.3 else
             rng.randint(0, 10 ** 6)}
+    if mode == 'process':
+        # loky keeps its worker processes between calls (their module state
+        # persists); sometimes a worker is freshly started instead
+        plan['reuse_workers'] = rng.random() < 0.7
     if mode == 'threads':
         plan['preempt_seed'] = rng.randint(0, 10 ** 6)
         plan['switch_p'] = rng.choice([0.05, 0.3, 0.3, 1.0])
@@ -653,6 +659,9 @@ def gen_variants(g, op, lmeta, rmeta):
         reps = int(w) + (1 if rng.random() < (w - int(w)) else 0)
         for _ in range(reps):
             v = {'what': what}
+            if what == 'drop_missing':
+                out.append(v)
+                continue
             if what == 'n_jobs':
                 rows = rmeta['n'] if rmeta else 4
                 v['n_jobs'] = gen_n_jobs(g, rows, multi=0.9)
@@ -1176,13 +1185,41 @@ def gen_sibling(g, op):
     import copy
     rng = g.rng
     kind = op['op']
-    if kind not in ('join', 'filter_tables', 'filter_pair', 'filter_candset'):
+    if kind not in ('join', 'filter_tables', 'filter_pair', 'filter_candset',
+                    'apply_matcher', 'pipeline'):
         return None
     sib = copy.deepcopy(op)
     for k in ('variants', 'fault', 'twin'):
         sib.pop(k, None)
     if g.prof['twin'] and rng.random() < g.prof['twin']:
         sib['twin'] = True
+    swappable = (kind != 'filter_pair' and op.get('l') != op.get('r') and
+                 not str(op.get('candset', '')).startswith('result_of:'))
+    if swappable and (kind in ('apply_matcher', 'pipeline') or
+                      rng.random() < (0.65 if kind == 'filter_candset'
+                                      else 0.35)):
+        # the same call with the two tables exchanged (same plan, so the same
+        # simulated workers serve it): what a per-table cache that is
+        # invalidated in the coordinator only gets wrong
+        for a, b in (('l', 'r'), ('l_key', 'r_key'), ('l_attr', 'r_attr'),
+                     ('l_out', 'r_out')):
+            va, vb = sib.get(a), sib.get(b)
+            for k2, v2 in ((a, vb), (b, va)):
+                if v2 is None and k2 in ('l_out', 'r_out'):
+                    sib.pop(k2, None)
+                elif v2 is not None:
+                    sib[k2] = v2
+        if 'candset' in sib:
+            cs = copy.deepcopy(g.case['candsets'][op['candset']])
+            cs['pairs'] = [[b2, a2] for a2, b2 in cs['pairs']]
+            cs['l_dtype'], cs['r_dtype'] = cs.get('r_dtype'), cs.get('l_dtype')
+            name = 'S%d' % len(g.candsets)
+            g.case['candsets'][name] = cs
+            g.candsets.append(name)
+            sib['candset'] = name
+        return sib
+    if kind in ('apply_matcher', 'pipeline'):
+        return None
 
     def other_tok(name):
         spec = g.case['tokenizers'].get(name)
